@@ -23,7 +23,7 @@ CHECKS = [
               "up to a bounded length and for depth pairs 1..3 and unbounded, is executed on the real data-dictionary helpers and on the "
               "EquationSystem wrappers; TLC evaluates the sliding-window, latest-write, no-aliasing, additive-on-empty and read clauses on the "
               "recorded graph. Exhaustive within the bounds for a property quantified over histories.",
-         note="Vectors are constant arrays (content = one integer); index gaps are not generated; the caller holds at most the two most recent "
+         note="Calls addressed to another quantity (another name in the same dictionary / the same variable name on another grid) are part of the histories: clause OthersIndependent. Vectors are constant arrays (content = one integer); index gaps are not generated; the caller holds at most the two most recent "
               "arrays; aliasing is observed with np.shares_memory on objects rebuilt by re-executing each history (no deep copies)."),
     dict(id="C10", level=MC, technique="TLC generates failure-injection scripts from spec/sys/SimDriver.tla; each is run through the real "
          "run_time_dependent_model; TLC model-checks the C10 (and C09 clock) clauses on the recorded prefix tree and trace-validates every step",
@@ -39,7 +39,7 @@ CHECKS = [
               "real md-grid with 4 subdomains (dims 2,1,1,0) and 4 interfaces are executed; in every reached state dofs_of, identify_dof for every "
               "index, projection_to, and set/get_variable_values (plain and additive; by name, md-variable, atomic variable, shuffled subsets) "
               "are recorded and TLC compares them with the reference layout (contiguous blocks in subdomain, interface, creation order).",
-         note="Quick tier observes the 60 shallowest states plus a seeded sample of 200 of the reached states; thorough observes all. "
+         note="Read-only lookups are issued after every call of a history (a stale lookup cache must show); all histories of length <= 2 plus one level of removals, and seeded histories of length 3-6. Quick tier observes the 60 shallowest states plus a seeded sample of 200 of the reached states; thorough observes all. "
               "Conformance uses the private block tables (_variable_numbers, _variable_num_dofs) and only yields DRIFT."),
     dict(id="C35", level=MC, technique="TLC enumerates compressed-storage inputs from spec/ref/SparseOpsEnum.tla and judges the real functions' "
          "outputs against the dense reference semantics of spec/ref/SparseOps.tla (J_SparseOps, 22 clauses)",
@@ -61,7 +61,7 @@ CHECKS = [
               "hand-built grids in real md-grids (optionally with a 1D fracture and interface), written with Exporter.write_vtu / write_pvd and "
               "restored with import_state_from_vtu / import_from_pvd / the DataSavingMixin route; TLC checks that every subdomain and interface "
               "gets back the values written at the latest step and that time information is restored.",
-         note="Two recorded known findings (polyhedron block order in 3D; mixin plain-pvd time used as index) suppress exactly their classes. "
+         note="The way data are handed to write_vtu (state keys / per-grid tuples in md-grid order / permuted tuples) is part of the enumerated family. Two recorded known findings (polyhedron block order in 3D; mixin plain-pvd time used as index) suppress exactly their classes. "
               "Point data and export_constants_separately are not covered. Quick tier runs workers with NUMBA_DISABLE_JIT=1."),
     dict(id="C27", level=MC, technique="TLC enumerates ordered sublists of subdomains / interfaces / boundary grids and vector dimensions "
          "(spec/ref/GridProjectionsFamily.tla) and judges the real projection matrices entry by entry (J_GridProjections)",
@@ -69,7 +69,7 @@ CHECKS = [
               "non-matching mortar) every ordered sublist within the bound and nd in 1..3 is given to SubdomainProjections, MortarProjections and "
               "BoundaryProjection; TLC checks the index maps against the reference (offsets by list order, interleaved vector ordering), "
               "restriction o prolongation = identity, full list = permutation, mortar blocks at the matching offsets with zero blocks for absent grids.",
-         note="Per-interface scalar projections are read from the real MortarGrid (their correctness is C26); co-dimension-2 interfaces are not generated."),
+         note="Refined (non-matching) mortar grids are in the quick tier; all eight projections are requested from one object in two orders (int first / avg first). Per-interface scalar projections are read from the real MortarGrid (their correctness is C26); co-dimension-2 interfaces are not generated."),
     dict(id="C06", level=MC, technique="TLC enumerates equation histories x selections x variable subsets (spec/ref/AssemblyEnum.tla) and judges "
          "EquationSystem.assemble on a labelled system against spec/ref/AssemblyRef.tla (J_Assembly)",
          text="Equations are sum_v SparseArray(M) @ v + DenseArray(c) whose entries are unique integer codes of (row label, column label), so the rows "
@@ -77,7 +77,7 @@ CHECKS = [
               "3 equations on subdomains / interfaces / a grid subset; selections by name or Operator in every order; restrictions to grid subsets incl. "
               "empty and reversed; disjoint variable arguments by name, md-variable, atomic) and checks rows, columns, residual, reported indices per "
               "equation and residual-only assembly against the reference slice of the full system in registry order.",
-         note="Quick executes a seeded sample of 1500 of the enumerated cases, thorough all. Variable arguments naming a variable twice are outside the family."),
+         note="The fixture md-grid has a 3x2 host (22 faces, 20 nodes) so that face- and node-based row counts cannot be confused unnoticed. Quick executes a seeded sample of 1500 of the enumerated cases, thorough all. Variable arguments naming a variable twice are outside the family."),
     dict(id="C28", level=MC, technique="TLC enumerates all canonical lattice segment pairs with the exact rational intersection (spec/ref/SegIsect*.tla) "
          "and judges segments_2d / segments_3d outputs for all 8 argument orders (J_SegIsect)",
          text="Every pair of non-degenerate segments with endpoints in {0..3}^2 (2D) and {0..1}^3 plus seeded coplanar/parallel pairs (quick) / all of "
@@ -88,13 +88,13 @@ CHECKS = [
          "split_intersecting_segments_2d with the exact predicate ValidSplit (J_SegSplit)",
          text="The output is not unique, so it is validated: edges meet only at shared endpoints, lie on their mapped input segment and carry its tags, cover "
               "every input segment, no duplicate edges or points - all evaluated by TLC in integer arithmetic on the rationalised output.",
-         note="Sets of 2-3 segments exhaustively in small boxes plus seeded 3-4 segment sets; coincident input point columns are outside the family (callers uniquify first)."),
+         note="Input point arrays with duplicate columns (shared end points given separately) are part of the family; one known finding (columns left unmerged for one orientation). Sets of 2-3 segments exhaustively in small boxes plus seeded 3-4 segment sets; coincident input point columns are outside the family (callers uniquify first)."),
     dict(id="C33", level=MC, technique="TLC enumerates pairs of partitions of a lattice segment and pairs from a triangulation catalogue (spec/ref/TessEnum.tla) and "
          "judges line_tessellation/match_1d and triangulations/match_2d outputs (J_Tessellation)",
          text="1D: every pair of integer partitions of [0,N], embedded along integer directions, overlaps compared with the exact interval intersections and the "
               "row/column-sum laws; 2D: catalogue and seeded Delaunay triangulations judged by the laws (non-negative, sums to the cell measure, averaged rows = 1, "
               "integrated columns = 1) with exact areas.",
-         note="2D is law-only (no reference clipping). One known finding (match_2d counts a touching pair) suppresses exactly that class. surface_tessellations not covered."),
+         note="2D pairs are embedded in tilted planes by rational rigid motions (opposite computed normals occur); two known findings of match_2d. 2D is law-only (no reference clipping). surface_tessellations not covered."),
     dict(id="C31", level=MC, technique="TLC enumerates lattice points / polygons / polyhedra / point orders (spec/ref/PredicateFamilies.tla) and judges the real predicates "
          "and sorting helpers against exact integer predicates (J_Predicates)",
          text="point_in_polygon, point_in_cell, point_in_polyhedron, half-space intersection, ccw, planarity and collinearity are compared with exact arithmetic on all "
@@ -110,7 +110,7 @@ CHECKS = [
          "polygons_by_polyhedron outputs with exact predicates (J_Clip)",
          text="lines_by_polygon: returned pieces lie inside and their union equals the exact inside intervals, tags carried; polygons_by_polyhedron: validated through "
               "convex tilings (containment of piece vertices and edge midpoints, area conservation over the tiling).",
-         note="Segments overlapping the polygon boundary are excluded (the property's family). Polygon clipping is validated by conservation, not by an exact clipped "
+         note="Boxes with pairwise different extents in every axis order are part of the polygon family; a second known finding (single-vertex touch asserts). Segments overlapping the polygon boundary are excluded (the property's family). Polygon clipping is validated by conservation, not by an exact clipped "
               "polygon; only convex polygons (documented domain). One known finding (polyhedron edge in the polygon's plane)."),
     dict(id="C19", level=TV, technique="TLC enumerates tensor grids (spec/ref/GridFam.tla) and judges compute_geometry output against exact geometry and the divergence-theorem "
          "identities of spec/lib/GridGeom.tla (J_GridGeom)",
@@ -132,7 +132,7 @@ CHECKS = [
          text="cell_faces_as_dense, cell_connection_map (symmetric), boundary tags (exactly one adjacent cell), signs_and_cells_of_boundary_faces (scrambled face lists), "
               "cell_nodes and divergence(d) = Div kron I_d for d = 1..3, on chains / quad / triangle patches with holes, split faces, orientation masks, and on Cartesian, "
               "simplex, fractured and extracted real grids. Exact integer comparison.",
-         note="Complexes up to 8 cells."),
+         note="Includes query - in-place topology update (fracture splitting, propagation) - query scenarios on the same grid objects. Complexes up to 8 cells."),
     dict(id="C22", level=MC, technique="TLC enumerates (fine, coarse) pairs and cell subsets (spec/ref/PartitionEnum.tla) and judges partition_structured, partition_coordinates, "
          "overlap and extract_subgrid against spec/ref/Partition.tla (J_Partition)",
          text="Every (fine, coarse) with fine <= 7 per direction in 2D (3D sample): one id per cell within range, each part a box; overlap equals the k-fold closed "
@@ -144,23 +144,23 @@ CHECKS = [
          text="On every nonzero-flux face the upwind matrix selects exactly the cell the flux leaves (none on Neumann and Dirichlet-inflow faces), boundary matrices have "
               "exact support, Kronecker expansion for 1-3 components; an explicit step computed by TLC in rationals from porepy's own matrices conserves the total and "
               "stays within the initial bounds under the CFL limit.",
-         note="Zero-flux faces are outside the selection clause; transport only in 2D; Robin faces excluded."),
+         note="Every flux field is realised at magnitudes 2^-40, 1 and 2^30 (the selection clause is about NONZERO fluxes, however small). Zero-flux faces are outside the selection clause; transport only in 2D; Robin faces excluded."),
     dict(id="C46", level=MC, technique="TLC model-checks the dictionary clauses on the transition graph recorded from the real SparseNdArray (M_SparseNd); every recorded edge "
          "trace-validated against spec/sys/SparseNd.tla (T_SparseNd); design check Impl represents Ref",
          text="Histories of up to 3 add calls (batches of up to 3 coordinates with duplicates, additive and overwriting) and reads at every state, in 1-D and 2-D boxes of "
               "side 3: every read returns what a dictionary would hold, reading a never-inserted coordinate raises, reads do not write.",
-         note="Values are small integers; 2-D box uses a seeded choice of batches per state in quick."),
+         note="Includes seeded histories with batches of 4-12 items with heavy duplication. Values are small integers; 2-D box uses a seeded choice of batches per state in quick."),
     dict(id="C34", level=MC, technique="TLC enumerates clustered lattice point sequences and column sets (spec/ref/UniquifyEnum.tla, SetMemberEnum.tla) and judges "
          "uniquify_point_set, fracs.utils.uniquify_points, ismember_columns, intersect_sets (J_Uniquify)",
          text="Well-separated clusters (the property's family): one representative per cluster = first-occurring member, in order of first occurrence, both index maps; "
               "membership and tolerance-based intersection agree with brute force.",
-         note="One known finding (norm pre-clustering splits a cluster straddling first_norm + tol), matched structurally (cross-checked against TLC's Straddle predicate)."),
+         note="Integer column sets include negative entries. One known finding (norm pre-clustering splits a cluster straddling first_norm + tol), matched structurally (cross-checked against TLC's Straddle predicate)."),
     dict(id="C39", level=MC, technique="TLC enumerates assignment programs (spec/sys/BoundaryCond.tla) and judges the flag arrays of real BoundaryCondition / "
          "BoundaryConditionVectorial objects (J_BoundaryCond)",
          text="Every program of up to 3 (faces, cond) assignments over 4 boundary faces with duplicates, in index and mask form, via the constructor and set_bc / "
               "internal_to_dirichlet (vectorial), on Cartesian, simplex and split fractured grids: exactly one flag on boundary faces per component, none on interior "
               "non-fracture faces, unassigned boundary faces Neumann.",
-         note="Quick covers vectorial programs of up to 2 assignments plus constructor-only 3-assignment programs; thorough is exhaustive."),
+         note="A fracture grid with tip faces off the domain boundary is part of both tiers. Quick covers vectorial programs of up to 2 assignments plus constructor-only 3-assignment programs; thorough is exhaustive."),
     dict(id="C07", level=MC, technique="TLC enumerates admissible primary/secondary splits and simulated sequences of splits on one system (spec/ref/SchurEnum.tla) "
          "and judges reduced-solve + expand against the full solve on manufactured integer systems (J_Schur); block labels vs spec/ref/SchurRef.tla as DRIFT",
          text="Every single admissible split of 3 equations (by name, or restricted to all/first/last/ends/none of their grids, counterpart variables primary) and "
@@ -174,7 +174,7 @@ CHECKS = [
          text="Symmetry of second- and fourth-order tensors, entries equal to the reference layout, rotate(R) = R K R^T for signed permutations x 3-4-5 / rational "
               "rotations with trace, second invariant and determinant preserved (the rational form of 'eigenvalues preserved'), restrict_to_cells selects the "
               "cells and leaves the original intact, copies are equal and independent (in-place writes through every array of either object).",
-         note="Integer parameters, rational rotations: exact comparison. copy()/restrict after rotation only with signed permutations."),
+         note="Homogeneous tensors (1 and 3 identical cells) are rotated as well as many-cell tensors. Integer parameters, rational rotations: exact comparison. copy()/restrict after rotation only with signed permutations."),
     dict(id="C41", level=TV, technique="TLC enumerates boxes, resolutions, multilinear coefficient tensors and lattice query points (spec/ref/InterpTableEnum.tla) "
          "and judges InterpolationTable / AdaptiveInterpolationTable against the exact function (J_InterpTable)",
          text="Interpolation reproduces multilinear functions exactly at every lattice point of the closed box (nodes, interiors, boundary), gradients are exact for "
@@ -206,7 +206,7 @@ CHECKS = [
               "function wrappers and shifts of composites (depth 2-3 sampled) are built with the real overloads, evaluated with and without derivatives through three "
               "entry points and compared with the program TLC derives for direct forward-mode evaluation: value, Jacobian, value-only agreement, previous time/iterate "
               "sub-expressions evaluate to stored values with no derivative. Design laws (Parse(Build(e)) agrees with Direct(e)) are checked on the whole space.",
-         note="Exact comparison on rationals with denominator <= 1000, tolerance policy otherwise. Variables on interfaces and unary minus are not generated; the built "
+         note="Leaves include md-variables whose sub-variables are not in md-grid order; composites are shifted by 1 and 2 steps in time and iterate. Exact comparison on rationals with denominator <= 1000, tolerance policy otherwise. Variables on interfaces and unary minus are not generated; the built "
               "tree vs the Build model is conformance only (DRIFT)."),
     dict(id="C11", level=EX, technique="TLC enumerates grids x integer SPD tensors x boundary masks (spec/ref/FvOracleEnum.tla), computes the exact Darcy fluxes of linear fields "
          "(FvOracle.tla on GridGeom) and judges pp.Mpfa's output (J_FvOracle)",
@@ -220,7 +220,7 @@ CHECKS = [
          text="For any valid grid and per-cell SPD tensor: div * flux symmetric, single-valued face flux, zero flux for constants (evaluated by TLC on porepy's own matrices); on "
               "Cartesian/tensor grids with diagonal K: M-matrix signs, entrywise agreement with MPFA, exactness for linear fields with constant K, and entrywise equality "
               "with TpfaRef on K-orthogonal configurations (elsewhere a difference from the transcription is DRIFT).",
-         note="Reference comparison skipped where 32-bit guards fail (counted). Faces whose half transmissibilities cancel exactly are counted, not judged for ConstantZero."),
+         note="The tensor catalogue includes transversely isotropic tensors in all axis positions (constant and per cell). Reference comparison skipped where 32-bit guards fail (counted). Faces whose half transmissibilities cancel exactly are counted, not judged for ConstantZero."),
     dict(id="C18", level=EX, technique="TLC enumerates simplex grids (optionally embedded by rational rigid motions), tensors and linear fields and judges RT0 / MVEM solutions against the "
          "exact fluxes and pressures (J_FvOracle)",
          text="Black-box exact oracle: with Dirichlet data from a linear pressure, extract_flux / extract_pressure must give the exact face fluxes and cell-centre pressures on "
@@ -239,7 +239,7 @@ CHECKS = [
     dict(id="C16", level=EX, technique="TLC enumerates grids and translations; zero TPSA stress and the solved translation judged (J_MechOracle)",
          text="A uniform displacement with matching Dirichlet data gives zero stress on every face; solving the assembled TPSA system returns the translation with zero rotation "
               "and solid pressure (within 1e-8) on Cartesian, simplex and perturbed grids in 2D/3D with Dirichlet or mixed data.",
-         note="Mixed-boundary systems with condition number >= 1e6 are excluded from the solve clause (counted); the linear solve is a black box; lambda > 0."),
+         note="Boundary assignments include component-wise mixes (rolling conditions). Mixed-boundary systems with condition number >= 1e6 are excluded from the solve clause (counted); the linear solve is a black box; lambda > 0."),
     dict(id="C24", level=MC, technique="TLC judges every transition recorded from real MixedDimensionalGrid histories against the reference state of spec/ref/MdGridRef.tla "
          "(M_MdGrid) and trace-validates every edge against the mechanism model spec/sys/MdGrid.tla (T_MdGrid); design check of the model",
          text="Histories of up to 4-5 add_subdomains / add_interface (both argument orders, co-dimension 0-2, rejected calls) / remove_subdomain / "
@@ -268,7 +268,7 @@ CHECKS = [
          text="Structurally identical trees (built separately, cold and with warm key caches) must have equal keys and hashes; trees differing in one site (scalar value, array "
               "entry / shape / format, variable name / domain / time or iterate shift, projection domain size / range size / indices / transposition, operation tag, "
               "function, child order, association) must have different keys. A TLA transcription of every _key is compared as DRIFT.",
-         note="Four known findings (functions, domain kind, ProjectionList repr, abbreviated long index arrays). Two descriptions of the same projection matrix and post-build "
+         note="Shifted leaves are also built as chains of single shifts with the key cached in between, and whole trees are shifted after hashing. Four known findings (functions, domain kind, ProjectionList repr, abbreviated long index arrays). Two descriptions of the same projection matrix and post-build "
               "mutation (Scalar.set_value) are not judged."),
     dict(id="C25", level=MC, technique="TLC enumerates lattice fracture networks and computes the unique conforming md-grid (spec/ref/FracMesh.tla, FracMeshEnum.tla); the real "
          "meshed md-grids are exported and judged (J_FracMesh); simplex (gmsh) and tensor meshes judged by the validity predicates",
@@ -277,7 +277,7 @@ CHECKS = [
               "split host face per side (one side at T-ends), coupled faces coincide with the cell (centre, measure, nodes) with opposite normals, fracture tags mark "
               "exactly the coupled faces, host volume = domain volume, cells lie on their fracture, mortar sides match; on the lattice family additionally equality with "
               "the expected coupling pairs. A gmsh catalogue (non-axis-aligned, X/T/L/Y) and non-uniform tensor grids are judged by the predicates in fixed point.",
-         note="Float-judged clauses on the simplex/tensor families (tolerance policy, 0 inconclusive). One known finding (partially overlapping intersection segments make "
+         note="Includes Cartesian md-grids with physical dimensions different from the cell counts (non-representable and non-dividing cell sizes) through cart_grid(physdims=) and create_mdg. Float-judged clauses on the simplex/tensor families (tolerance policy, 0 inconclusive). One known finding (partially overlapping intersection segments make "
               "split_intersections raise, order dependent; thorough tier only). Overlapping/duplicated fractures are outside the family."),
     dict(id="C32", level=TV, technique="TLC enumerates directions (all Pythagorean quadruples up to a bound, signed permutations, generic integer and nearly parallel directions), point "
          "sets and angles (spec/ref/OrthoMapsEnum.tla) and judges the returned matrices by integer identities or 39-bit fixed-point limb arithmetic (J_OrthoMaps)",
@@ -285,7 +285,7 @@ CHECKS = [
               "unit determinant, the normal / tangent is mapped onto the reference axis with its length, computed normals are unit and orthogonal to the point set, the "
               "projection blocks are mutually consistent. Values that are rationals with a common denominator <= 1200 (the exact family: Rodrigues rotations of Pythagorean "
               "unit vectors are rational) are judged by exact integer identities, all others in fixed point under the tolerance policy.",
-         note="Readings fixed in the assumptions: a normal exactly opposite to the reference axis may map to either orientation (the code returns the identity); 2D projection "
+         note="Includes a graded family of nearly axis-aligned normals (tilts 1e-1 .. 1e-7). Readings fixed in the assumptions: a normal exactly opposite to the reference axis may map to either orientation (the code returns the identity); 2D projection "
               "blocks have |det| = 1 (documented tangent choice). map_grid is not covered."),
     dict(id="C47", level=EX, technique="TLC enumerates 2D / 3D fracture networks and named data arrays (spec/ref/FileRoundTripEnum.tla) and judges what the real readers return after "
          "the real writers (J_FileRoundTrip)",
